@@ -133,10 +133,11 @@ func (o *Overloader) Update(newLimitConfig LimitConfig) {
 }
 
 func (o *Overloader) updateConnLimiter(limitConfig *LimitConfig) {
-	o.limitConfigLock.Lock()
+	// the lock under which takeConn and releaseConn read connLimiter
+	o.connLimiterLock.Lock()
 	if limitConfig.MaxConn <= 0 {
 		o.connLimiter = nil
-		o.limitConfigLock.Unlock()
+		o.connLimiterLock.Unlock()
 		return
 	}
 	if o.connLimiter == nil {
@@ -144,7 +145,7 @@ func (o *Overloader) updateConnLimiter(limitConfig *LimitConfig) {
 	} else if o.limitConfig.MaxConn != limitConfig.MaxConn {
 		o.connLimiter.update(limitConfig.MaxConn)
 	}
-	o.limitConfigLock.Unlock()
+	o.connLimiterLock.Unlock()
 }
 
 func (o *Overloader) updateTotalQPSLimiter(limitConfig *LimitConfig) {
